@@ -72,9 +72,11 @@ Complete == /\ Running /\ tag = "from" /\ off >= Len(buf) /\ tag' = "none"
             /\ Ret(IF IsW THEN <<"ok", Len(buf) - 4>> ELSE <<"ok_sync">>, FALSE)
             /\ UNCHANGED <<off, buf, sink, nw, armed, compliant, npend, nerr, nsync, sched>>
 Writing == Running /\ tag = "from" /\ off < Len(buf)
-Accept == /\ Writing /\ \E k \in 1..(Len(buf) - off) :
-                 sink' = sink \o SubSeq(buf, off + 1, off + k) /\ off' = off + k /\ Log([a |-> "accept", k |-> k])
-          /\ npend' = 0 /\ UNCHANGED <<tag, buf, fut, nw, armed, out, dirty, compliant, nerr, nsync>>
+\* (AcceptK(k): the action for a given k - what a recorded event binds, so that validating a trace does not enumerate every k)
+AcceptK(k) == /\ Writing /\ k \in 1..(Len(buf) - off)
+              /\ sink' = sink \o SubSeq(buf, off + 1, off + k) /\ off' = off + k /\ Log([a |-> "accept", k |-> k])
+              /\ npend' = 0 /\ UNCHANGED <<tag, buf, fut, nw, armed, out, dirty, compliant, nerr, nsync>>
+Accept == \E k \in 1..(Len(buf) - off) : AcceptK(k)
 Zero == /\ Writing /\ nerr < MaxErr /\ nerr' = nerr + 1 /\ Ret(<<"write_zero">>, TRUE) /\ Log([a |-> "zero", k |-> 0])
         /\ UNCHANGED <<tag, off, buf, sink, nw, armed, compliant, npend, nsync>>
 Fail == /\ Writing /\ nerr < MaxErr /\ nerr' = nerr + 1 /\ Ret(<<"io_error">>, TRUE) /\ Log([a |-> "fail", k |-> 0])
